@@ -69,6 +69,7 @@ def _case(draw):
     spec["psiT"] = (min(a, 2 * math.pi - 1e-6) * ax).tolist()
     spec["psi_dot"] = draw(gen.vec3(-2, 1, allow_zero=False))
     spec["r"] = draw(gen.vec3(-2, 2))
+    spec["call"] = draw(st.sampled_from(["fresh", "fresh", "buffer"]))
     return spec
 
 
@@ -109,7 +110,10 @@ def _make_A(spec):
 
 
 def check(spec):
-    from cardillo.math import rotations as rot
+    from cardillo.math import rotations as _rot
+    from harness.callconv import Proxy
+
+    rot = Proxy(_rot, spec.get("call", "fresh"))
     from cardillo.math import algebra as alg
 
     res = Result()
